@@ -180,7 +180,7 @@ def gen_case(rng, profile, nmethods=None, ncalls=2):
         params = gen_params(rng, profile if k == 0 else "small")
         rt, mode = gen_ret(rng, params)
         m = {"name": "m%d" % k, "params": params, "ret": rt, "mode": mode}
-        if rng.random() < 0.08:
+        if rng.random() < 0.12:
             m["regname"] = "ov_%d" % k
         if mode == "lit":
             m["lit"] = A.gen_value(layout(rt), rng, text=True, maxlen=3)
@@ -203,7 +203,7 @@ def boundary_cases(rng, thorough):
     out = []
     simple = [("uint", 64), "bool", "string", ("uint", 8), "address", ("tuple", ("uint", 16), "bool"), ("darr", ("uint", 32))]
     for n in range(0, 20):
-        for variant in range(5 if thorough or 13 <= n <= 17 else 2):
+        for variant in range(5 if thorough or 14 <= n <= 17 else 2):
             params = [simple[(i * (variant + 1) + variant) % len(simple)] if variant else ("uint", 64) for i in range(n)]
             if variant == 2:
                 # transaction parameters in front, middle, end: do not count
@@ -612,7 +612,7 @@ def static_checks(case, out):
 
 
 def new_out():
-    return {"model": [], "plan_mismatch": [], "bind_mismatch": [], "fail": [], "contract": [], "known_contract": [], "contract_corr": [], "notes": [], "unsup": {},
+    return {"model": [], "plan_mismatch": [], "bind_mismatch": [], "fail": [], "contract": [], "contract_corr": [], "notes": [], "unsup": {},
             "n": {"client": 0, "encodings": 0, "atc": 0, "atc_unusable": 0, "model_bind": 0, "compiles": 0, "runs": 0, "neg_runs": 0,
                   "contract": 0, "approve": 0, "inconclusive": 0, "reg_rejects": 0},
             "plan": None}
@@ -648,7 +648,6 @@ def run_case(case, combos, do_static=True):
         out["n"]["contract"] += 1
         tstr = lambda x: ([A.arc4_str(t) for t in x["params"]], "void" if x["ret"] is None else A.arc4_str(x["ret"]))
         reg = [(regname(x),) + tstr(x) for x in methods]            # what was registered: the property speaks about these
-        own = [(x["name"],) + tstr(x) for x in methods]             # faithful model: method_spec() uses the subroutine's own name
         got = [(cm.name, [str(a.type) for a in cm.args], str(cm.returns.type)) for cm in contract.methods]
         csel = sorted(cm.get_selector() for cm in contract.methods)
         mysel = sorted(CL.selector(CL.signature(*x)) for x in reg)
@@ -660,22 +659,20 @@ def run_case(case, combos, do_static=True):
         if got != reg or csel != mysel or not teal_ok:
             detail = {"version": version, "asm": asm, "contract": got, "registered": reg, "contract_selectors": [s.hex() for s in csel],
                       "registered_selectors": [s.hex() for s in mysel], "teal": [(s.hex() if s else None, g) for s, g in tsel]}
-            overridden = [x for x in methods if regname(x) != x["name"]]
-            if overridden and got == own and teal_ok:
-                # exactly what the faithful model predicts for a registration with an overriding name
-                detail["what"] = "contract lists %s under the subroutine's own name %r; the program dispatches on %r" % (
-                    overridden[0]["name"], CL.signature(*own[methods.index(overridden[0])]), CL.signature(*reg[methods.index(overridden[0])]))
-                # a client that follows the contract: its selector is not dispatched
-                if mi < len(methods) and regname(methods[mi]) != methods[mi]["name"] and calls:
-                    c0 = calls[0]
-                    aa = [contract.methods[mi].get_selector()] + c0.app_args[1:]
-                    ctx0, _ = call_ctx(c0, case["calls"][0]["before"], case["calls"][0]["after"], [(s_, CL.selector(s_)) for s_ in method_lines(teal)], app_args=aa)
-                    v0, _l0 = logs_of(mdl.ask((S("run"), ctx0, teal)))
-                    detail["contract_client_verdict"] = v0
-                out["known_contract"].append(detail)
+            bad_names = [(g, r_) for g, r_ in zip(got, reg) if g != r_]
+            if bad_names and teal_ok:
+                detail["what"] = "contract lists %r for the method registered (and dispatched) as %r" % (CL.signature(*bad_names[0][0]), CL.signature(*bad_names[0][1]))
             else:
                 detail["what"] = "contract description disagrees with the registered methods / dispatched selectors"
-                out["contract"].append(detail)
+            # a client that follows the contract: is its selector dispatched?
+            if mi < len(contract.methods) and calls and contract.methods[mi].get_selector() != calls[0].app_args[0]:
+                c0 = calls[0]
+                aa = [contract.methods[mi].get_selector()] + c0.app_args[1:]
+                ctx0, _ = call_ctx(c0, case["calls"][0]["before"], case["calls"][0]["after"], [(s_, CL.selector(s_)) for s_ in method_lines(teal)], app_args=aa)
+                v0, _l0 = logs_of(mdl.ask((S("run"), ctx0, teal)))
+                detail["contract_client_verdict"] = v0
+                detail["what"] += "; a client using the contract's selector %s gets verdict %r" % (contract.methods[mi].get_selector().hex(), v0)
+            out["contract"].append(detail)
         msel = [(s, CL.selector(s)) for s in method_lines(teal)]
         # ---- (4) behaviour ----
         for ci, (c, call) in enumerate(zip(calls, case["calls"])):
@@ -885,6 +882,19 @@ def worker(job):
     return idx, r
 
 
+def pool_size():
+    """16 workers on a quiet machine; measured here: with the run queue far above the core count more workers give LOWER
+    throughput (48 cases: 1 process 21 s, 4 processes 49 s, 16 processes 112 s at load 75), so back off to 2"""
+    try:
+        load = os.getloadavg()[0]
+    except OSError:
+        load = 0.0
+    spare = NPROC - load
+    if spare >= NPROC / 2:
+        return min(NPROC, 16)
+    return max(2, min(16, int(spare)))
+
+
 def combos_for(i, tier, boundary=False):
     """(version, frame_pointers, scratch_slots, assemble_constants): always one scratch-glue and one frame-pointer-glue"""
     vs_lo = [6, 7][i % 2]
@@ -943,7 +953,7 @@ def main(argv):
         corpus = [jl(c) for c in json.load(open(CORPUS))]
     cases = [("corpus", c) for c in corpus]
     cases += [("boundary", c) for c in boundary_cases(ck.rng, thorough)]
-    nrand = 900 if thorough else 150
+    nrand = 900 if thorough else 110
     profiles = ["any", "cutoff", "small", "txnheavy", "refheavy", "cutoff", "any"]
     for i in range(nrand):
         cases.append(("random:" + profiles[i % len(profiles)], gen_case(ck.rng, profiles[i % len(profiles)], ncalls=3 if thorough else 2)))
@@ -956,15 +966,20 @@ def main(argv):
     global _model
     _model.close()
     _model = None
-    with mp.get_context("fork").Pool(min(NPROC, 16)) as pool:
-        results = pool.map(worker, jobs, chunksize=2)
+    import gc
+    gc.collect()
+    gc.freeze()
+    nprocs = pool_size()
+    ck.coverage["worker_processes"] = nprocs
+    with mp.get_context("fork").Pool(nprocs) as pool:
+        results = pool.map(worker, jobs, chunksize=1)
     phase["cases"] = round(time.time() - t1, 1)
 
     # ---- aggregate ----
     tot = new_out()["n"]
     hist = {"params": {}, "non_txn_args": {}, "txn_params": {}, "ref_params": {}, "origin": {}, "flavour_runs": {}, "ret": {}}
     unsup = {}
-    plan_mis, bind_mis, fails, contract_bad, model_bad, known_contract, contract_corr = [], [], [], [], [], [], []
+    plan_mis, bind_mis, fails, contract_bad, model_bad, contract_corr = [], [], [], [], [], []
     for (idx, r) in results:
         origin, case = cases[idx]
         m = case["methods"][case["target"]]
@@ -993,8 +1008,6 @@ def main(argv):
             fails.append((idx, x))
         for x in r["contract"]:
             contract_bad.append((idx, x))
-        for x in r["known_contract"]:
-            known_contract.append((idx, x))
         for x in r["contract_corr"]:
             contract_corr.append((idx, x))
         for x in r["notes"][:1]:
@@ -1015,20 +1028,7 @@ def main(argv):
     ck.coverage["constants"] = {"METHOD_ARG_NUM_CUTOFF": ptconfig.METHOD_ARG_NUM_CUTOFF, "RETURN_HASH_PREFIX": bytes(ptconfig.RETURN_HASH_PREFIX).hex()}
     ck.coverage["phase_s"] = phase
 
-    # ---- known findings: replay against the real code, attribute matching cases ----
-    kf = ck.match_known(lambda f: f["id"] == "contract-ignores-overriding-name")
-    still = replay_known_override(ck) if kf else None
-    ck.coverage["known_contract_cases"] = len(known_contract)
-    if known_contract:
-        if kf and still:
-            ck.known(kf["id"], "contract-ignores-overriding-name: %s (%d generated registrations with an overriding name; witness %s; a client following the contract gets verdict %r)" % (
-                known_contract[0][1]["what"], len(set(i for i, _ in known_contract)), kf["witness"]["call"], still.get("contract_client_verdict")))
-        else:
-            idx, f = known_contract[0]
-            ck.violation("contract description disagrees with the program: %s" % f["what"], {"kind": "contract", "case": jd(cases[idx][1]), "detail": f})
-    elif kf and still:
-        ck.known(kf["id"], "contract-ignores-overriding-name: %s; a client following the contract gets verdict %r" % (still["what"], still.get("contract_client_verdict")))
-
+    # (no open known finding for C09; `contract-ignores-overriding-name` is fixed by /repo 330bd50 and suppresses nothing)
     # ---- verdict ----
     for x in model_bad[:5]:
         ck.model_problem(x if isinstance(x, str) else repr(x))
@@ -1055,9 +1055,16 @@ def main(argv):
             ff = same[0] if same else f
         ck.violation("routed method %s at version %s (%s glue): %s" % (case_summary(small)["signature"], combo[0], ff.get("flavour", "?"), ff.get("what", "")),
                      {"kind": f["kind"], "case": jd(small), "combo": list(combo), "detail": ff, "original_case_index": idx})
-    for (idx, f) in contract_bad[:3]:
+    contract_bad.sort(key=lambda kv: (len(cases[kv[0]][1]["methods"]), len(cases[kv[0]][1]["methods"][cases[kv[0]][1]["target"]]["params"])))
+    seen_c = set()
+    for (idx, f) in contract_bad:
+        if idx in seen_c or len(seen_c) >= 3:
+            continue
+        seen_c.add(idx)
         origin, case = cases[idx]
-        ck.violation("contract description disagrees with the program: %s" % f["what"], {"kind": "contract", "case": jd(case), "detail": f})
+        small = {"methods": case["methods"], "target": case["target"], "calls": case["calls"][:1]}
+        ck.violation("registration %s: %s" % (registration_text(case), f["what"]),
+                     {"kind": "contract", "case": jd(small), "combo": [f.get("version", 8), None, None, f.get("asm", False)], "detail": f})
     broken = []
     if plan_mis:
         broken.append("plan correspondence: binding_plan (Router/Args.v) != placement of the ARC-4 client on %d calls" % len(plan_mis))
@@ -1080,22 +1087,17 @@ def main(argv):
 
 
 def override_case():
-    """the witness of known finding contract-ignores-overriding-name as a case"""
+    """add_method_handler(add, overriding_name="foo") — the witness of the fixed finding contract-ignores-overriding-name"""
     return {"methods": [{"name": "add", "regname": "foo", "params": [("uint", 64)], "ret": ("uint", 64), "mode": "param:0"}], "target": 0,
             "calls": [{"args": [41], "before": [], "after": []}]}
 
 
-def replay_known_override(ck):
-    """-> the known-finding detail if the real code still shows it, else None"""
-    r = run_case(override_case(), [(8, None, None, False), (6, None, None, False)])
-    ck.count(("known", "override"))
-    for x in r["model"]:
-        ck.model_problem(x)
-    # a behavioural failure of this tiny case is a violation of its own (reported here: the case is minimal already)
-    for f in (r["contract"] + r["fail"])[:1]:
-        ck.violation("routed method add/foo(uint64)uint64: %s" % f.get("what"), {"kind": f.get("kind", "contract"), "case": jd(override_case()),
-                                                                               "combo": [f.get("version", 8), f.get("fp"), f.get("ss"), f.get("asm", False)], "detail": f})
-    return r["known_contract"][0] if r["known_contract"] else None
+def registration_text(case):
+    out = []
+    for m in case["methods"]:
+        sig = CL.signature(m["name"], [A.arc4_str(t) for t in m["params"]], "void" if m["ret"] is None else A.arc4_str(m["ret"]))
+        out.append("add_method_handler(%s%s)" % (sig, ", overriding_name=%r" % m["regname"] if m.get("regname") else ""))
+    return "; ".join(out)
 
 
 def finish(ck):
